@@ -347,6 +347,14 @@ def plain_dims(x):
     return [i for i, ax in enumerate(x.axes) if not grp(ax)]
 
 
+def _decide(key, f):
+    """a per-step branch condition: evaluated on the history-laden array (first call of the step) and reused for its twin"""
+    d = _CTX.setdefault("decisions", {})
+    if key not in d:
+        d[key] = bool(f())
+    return d[key]
+
+
 def _plain(x):
     """no grouped axis of any kind - decided once on the history-laden array (a one-member grouped axis has a plain twin)"""
     if _CTX.get("plain") is not None:
@@ -378,6 +386,10 @@ def _label_index(da, x, y, k, m):
     ds = plain_dims(x)
     d = ds[k % len(ds)]
     n = x.shape[d]
+    if m >= 8 and _decide("near", lambda: not is_grouped(x.axes[d]) and bool(x.axes[d].is_numeric())):
+        # an exact lookup of a label that is NOT on the axis but close to one (IndexError on a fresh array, whatever was asked before)
+        near = float(pick_label(x, d, k)) + 0.25
+        return x.take(near, axis=d) if m % 2 else x.take([near], axis=d)
     form = m % 4
     if form == 0:
         return x.take(pick_label(x, d, k), axis=d)
@@ -576,6 +588,11 @@ def _rename(da, x, y, k, m):
 
 def _query(da, x, y, k, m):
     d = k % x.ndim
+    if m >= 9 and _decide("tolq", lambda: not grp(x.axes[d]) and not is_grouped(x.axes[d]) and bool(x.axes[d].is_numeric()) and x.shape[d] > 0):
+        # nearest-neighbour queries (tol=, .nloc): they must not leave a tolerance behind on the axis
+        near = float(x.axes[d].values[k % x.shape[d]]) + 0.25
+        r = x.take(near, axis=d, tol=0.5) if m % 2 else x.nloc[(slice(None),) * d + (near,)]
+        return np.asarray(r.values if hasattr(r, "values") else r).tolist()
     form = m % 6
     if form == 0:
         return bool(x.axes[d].is_monotonic()) if not grp(x.axes[d]) else int(x.axes[d].size)
@@ -643,6 +660,10 @@ def battery(da, h, r, what):
             other = np.concatenate([labs[::-1][:-1], [labs.max() + 1]])
             both("Axis.union (sorted merge or concatenation)", lambda z: z.axes[d].union(da.Axis(other.copy(), z.axes[d].name)).values)
             both("Axis.union reversed", lambda z: da.Axis(other.copy(), z.axes[d].name).union(z.axes[d]).values)
+            if not is_grouped(ax):
+                near = float(labs[r % len(labs)]) + 0.25
+                if not np.any(np.isclose(labs.astype(float), near)):
+                    both("exact lookup of an absent label close to a stored one", lambda z: z.take(near, axis=d))
     sel = r % 4
     if sel == 0 and not has_group(h) and h.ndim >= 2:
         both("flatten().labels", lambda z: [l.tolist() for l in z.flatten().labels])
@@ -682,6 +703,7 @@ def run_history(case, allow_kf_pattern=False):
             if tag in ("relabel", "rename", "assign", "index", "reindex") and not plain_dims(x):
                 continue
             _CTX["inplace_names"] = None
+            _CTX["decisions"] = {}
             _CTX["plain"] = None
             _CTX["plain"] = _plain(x) if tag in ("relabel", "rename") else None
             _CTX["dataset_names"] = [x.dims[i_] for i_ in plain_dims(x) if not is_grouped(x.axes[i_]) and "," not in x.dims[i_]] if tag == "dataset" else None
